@@ -72,6 +72,15 @@ Ltac enum_state_only c Hinv :=
   destruct c as [crec cpas cpng cfc cfd];
   enum_state Hs Ha; cbn in Ho; subst.
 
+Ltac split_ifs_light :=
+  repeat match goal with
+         | |- context [if ?b then _ else _] =>
+           match b with
+           | context [if _ then _ else _] => fail 1
+           | _ => destruct b eqn:?
+           end; cbn [fst snd]
+         end.
+
 Ltac solve_in := cbn [In]; repeat first [left; reflexivity | right]; fail.
 
 (* ---------- C16_down_once ---------- *)
@@ -95,8 +104,8 @@ Lemma step_mon_proj c s e : inv s -> enabled c s e = true ->
   map ADown (dq s) ++ proj 0 (snd (step c s e)) = proj 3 (snd (step c s e)) ++ map ADown (dq (fst (step c s e))).
 Proof.
   intros Hinv He. enum_step c s e Hinv He;
-  compute_step; red_all; rewrite ?memN_nil, ?memN_single, ?N.eqb_refl; split_ifs; prune He;
-  repeat split; kill.
+  compute_step; rewrite ?memN_nil, ?memN_single, ?N.eqb_refl; split_ifs_light; prune He;
+  repeat split; vm_compute; reflexivity.
 Qed.
 
 Theorem down_once_thm : forall c h s tr, exec c init h = Some (s, tr) ->
@@ -190,12 +199,10 @@ Theorem auto_reconnect_only_thm : forall c h s tr e, exec c init h = Some (s, tr
      recon s = true \/ (c_reconnect c = true /\ exists k, e = EStreamError k /\ k <> KConflict)).
 Proof.
   intros c h s tr e Hx He. pose proof (reach_inv c h s tr Hx) as Hinv.
-  enum_step c s e Hinv He;
+  enum_step c s e Hinv He; try destruct k; try destruct crec;
   compute_step; red_all; rewrite ?memN_nil, ?memN_single, ?N.eqb_refl; split_ifs; prune He;
-  (split; intros Hq; try discriminate Hq; auto);
-  try (right; split; [reflexivity|]; eexists; split; [reflexivity|discriminate]).
-  all: destruct crec, k; try discriminate Hq; auto;
-    right; split; [reflexivity|]; eexists; split; [reflexivity|discriminate].
+  (split; intros Hq; try discriminate Hq; auto 6);
+  right; (split; [reflexivity|]); eexists; (split; [reflexivity|discriminate]).
 Qed.
 
 (* ---------- C16_keepalive ---------- *)
@@ -217,11 +224,11 @@ Qed.
 Lemma pong_clears c s i : inv s -> enabled c s (EPong i) = true -> pq s = [i] ->
   pq (fst (step c s (EPong i))) = [].
 Proof.
-  intros Hinv He Hq. enum_state_only c Hinv; red_in He; try discriminate He; try discriminate Hq;
-  cbn [pq] in Hq; apply cons_inj in Hq; destruct Hq as [Hq _]; subst;
-  red_in Ha; use_bools;
-  compute_step; red_all; rewrite ?memN_single, ?N.eqb_refl;
-  match goal with H : memN _ _ = true |- _ => rewrite H end; reflexivity.
+  intros [_ [Ha _]] _ Hq. unfold aux_ok in Ha. rewrite Hq in Ha.
+  apply andb_prop in Ha. destruct Ha as [_ Ha].
+  apply andb_prop in Ha. destruct Ha as [_ Hm].
+  cbn [step]. unfold on_pong. cbn [set_nz reg pq pth nping]. rewrite Hm.
+  cbn [fst set_ping pq]. rewrite Hq, memN_single, N.eqb_refl. reflexivity.
 Qed.
 
 Theorem keepalive_thm : forall c h s tr, exec c init h = Some (s, tr) ->
